@@ -35,6 +35,14 @@ def run(ctx):
     n = 0
     probs_len, probs_idx, probs_val = [], [], []
     n_push = n_store = 0
+    _lem = []
+
+    def gap_lemma():
+        if not _lem:
+            from .common import gap_window_lemma
+            _lem.append(gap_window_lemma(ctx, bound="k"))
+            ctx.ok("R18-length", RS + ":skip-window-invariant", _lem[0][1]) if _lem[0][0] else None
+        return _lem[0]
     for p in pe.paths():
         if p.exit_kind != "return":
             continue
@@ -85,7 +93,9 @@ def run(ctx):
         if len(pushes) + len(stores) > 1:
             probs_val.append("more than one store per add")
         # len = min(i, k) needs every call in the fill phase to append: a path must either append or refute `i < k`
-        if not pushes and fv(fd, fill) is not False:
+        if not pushes and fv(fd, fill) is None and fv(fd, mk("Le", ("field", selfp, "skip_until"), i_f)) is False and gap_lemma()[0]:
+            pass        # inside a skip window: i < skip_until implies i >= k (inductive invariant of the type), so the fill phase is over
+        elif not pushes and fv(fd, fill) is not False:
             probs_len.append("a path neither appends the item nor establishes i >= k (an item of the fill phase can be dropped, so len < min(n, k))")
     ctx.check(not probs_len and n_push >= 1, "R18-length", add.key, add, "%d paths: push only under i < k; i += 1 exactly once per call" % n,
               "; ".join(sorted(set(probs_len))[:3]) or "no push found")
